@@ -17,3 +17,7 @@ pub use authentication::{
   authentication_builtin::AuthenticationBuiltin, authentication_plugin::Authentication,
 };
 pub use cryptographic::{cryptographic_builtin::CryptographicBuiltin, Cryptographic};
+
+#[cfg(rustdds_verif)]
+#[path = "/verif/harness/incrate/sec/mod.rs"]
+pub mod verif_sec;
